@@ -216,6 +216,26 @@ def canon_model_ninja(txt):
     return "".join(out)
 
 
+def sort_order_only(txt):
+    """after hash renumbering: sort the order-only section of every build block (paths that embed a hash are
+    ordered by the real hash value in the implementation and by the symbolic token in the model)"""
+    out = []
+    for blk in txt.split("\n\n"):
+        if blk.lstrip("\n").startswith("build") and " $\n    | $\n" in blk:
+            head, rest = blk.split(" $\n    | $\n", 1)
+            lines = rest.split("\n")
+            # dependency lines end with " $" except the last one of the continuation
+            k = 0
+            while k < len(lines) and lines[k].startswith("    "):
+                k += 1
+            deps = [l.strip().removesuffix(" $").strip() for l in lines[:k]]
+            always = [d for d in deps if d == "ALWAYS"]
+            deps = sorted(d for d in deps if d != "ALWAYS") + always
+            blk = head + " $\n    | $\n" + " $\n".join("    " + d for d in deps) + ("\n" + "\n".join(lines[k:]) if lines[k:] else "")
+        out.append(blk)
+    return "\n\n".join(out)
+
+
 def impl_status(r):
     rc = r["rc"]
     if rc == 0:
@@ -338,8 +358,8 @@ def compare(r, m, observables=("status", "decision", "modules", "global_env", "m
             if ta != tb:
                 diffs.append(("tasks", f"{k}: impl {ta} model {tb}"))
     if "ninja" in observables:
-        ca = canon_impl_ninja(r["ninja"] or "")
-        cb = canon_model_ninja(m["ok"]["ninja"])
+        ca = sort_order_only(canon_impl_ninja(r["ninja"] or ""))
+        cb = sort_order_only(canon_model_ninja(m["ok"]["ninja"]))
         if ca != cb:
             al, bl = ca.split("\n\n"), cb.split("\n\n")
             where = "length"
